@@ -1,6 +1,6 @@
 ------------------------------ MODULE TraceC02 ------------------------------
 (* Code -> spec for C02: each case is one enforcement observed on the real pytype:             *)
-(*   [ann |-> type term, val |-> value term, site |-> "arg"|"ret"|"assign", err |-> BOOLEAN]   *)
+(*   [ann |-> type term, val |-> value term, site |-> "arg"|"kwarg"|"ret"|"assign", err]       *)
 (* err = pytype reported the site's type error on that line.  C02: err <=> ~Admits(ann, val).  *)
 EXTENDS PytdTypes, Json, IOUtils, TLCExt
 
